@@ -21,6 +21,8 @@ _INTERPS = {}
 
 def interpreter(secure=False, legacy=True, fresh=False):
     from ckl.interpreter import Interpreter
+    if os.environ.get("VF_LEGACY") == "0":      # exploratory runs only
+        legacy = False
     key = (secure, legacy)
     if fresh:
         return Interpreter(secure, legacy)
